@@ -483,7 +483,10 @@ impl Config {
                             })?;
                         let base: u32 = subnet.network().into();
                         let addresses = addresses.get_or_insert_with(Vec::new);
-                        for i in 1..(((1 << (32 - subnet.prefixlen)) - 1) - 1) {
+                        /* All host addresses: offsets 1 up to and including 2^n - 2 (the last
+                         * address, 2^n - 1, is the broadcast address).
+                         */
+                        for i in 1..((1 << (32 - subnet.prefixlen)) - 1) {
                             addresses.push((base + i).into())
                         }
                     }
